@@ -251,3 +251,263 @@ Qed.
         split; [eapply pgx_edit_trans; [apply pgx_edit_alloc|exact Hed]|]. intros di Hdi. discriminate.
     - cbv iota beta. split; [apply pgx_insert_core_edit; assumption|]. intros di _ H. congruence.
   Qed.
+
+(* ---------------------------------------------------------------- operands of the insertion calls *)
+(* a dictionary whose /Kids and /Type are not given through references (true of everything harness/c13.py generates) *)
+Definition pgx_plain (d : pg_dict) : Prop :=
+  (forall j, pg_dget d pgk_Kids <> PvRef j) /\ (forall j, pg_dget d pgk_Type <> PvRef j).
+
+(* what may be handed to the insertion calls (this file: objects of the same document and direct objects; pages of the
+   other document are in C13ProofsH.v): anything that exists except a null (where qpdf still misbehaves:
+   insert_null_rejected_refuted), the catalog and the /Pages node; a dictionary has to be plain and either has /Kids
+   (then it is refused) or is a leaf dictionary not typed /Pages or /Catalog (then it is accepted) *)
+Definition pgx_operand_ok (w : pg_world) (d : bool) (h : pg_href) : Prop :=
+  match pg_norm w h with
+  | PhDirect v => match v with PvNull | PvRef _ => False | PvDict dd => pgx_plain dd /\ (pg_dget dd pgk_Kids <> PvNull \/ pgx_leafy dd) | _ => True end
+  | PhObj b i => b = d /\ i <> pd_root (pg_get w d) /\ pg_root_pages (pg_get w d) <> PvRef i /\
+                 match pg_lookup (pd_store (pg_get w d)) i with
+                 | Some (PcObj (PvDict dd)) => pgx_plain dd /\ (pg_dget dd pgk_Kids <> PvNull \/ pgx_leafy dd)
+                 | Some (PcObj PvNull) | Some (PcObj (PvRef _)) => False
+                 | _ => True
+                 end
+  end.
+
+Lemma pgx_norm_obj : forall w h b i, pg_norm w h = PhObj b i -> pg_lookup (pd_store (pg_get w b)) i <> None.
+Proof.
+  intros w h b i H. unfold pg_norm in H. destruct h as [v|b0 i0]; [discriminate|].
+  destruct (pg_lookup (pd_store (pg_get w b0)) i0) eqn:E; [|discriminate]. inversion H; subst. rewrite E. discriminate.
+Qed.
+
+Lemma pgx_ins_formula : forall s v, pg_is_null s v = false ->
+  pg_is_null s v || (pg_is_dict s v && negb (pg_is_dict_of_type s v pgk_Pages) && negb (pg_is_dict_of_type s v pgk_Catalog) &&
+                     negb (pg_has_key s v pgk_Kids)) = true ->
+  pg_is_dict s v = true /\ pg_is_dict_of_type s v pgk_Pages = false /\ pg_has_key s v pgk_Kids = false /\
+  pg_is_dict_of_type s v pgk_Catalog = false.
+Proof.
+  intros s v Hn H. rewrite Hn in H. cbn [orb] in H.
+  apply andb_prop in H. destruct H as [H Hk]. apply andb_prop in H. destruct H as [H Hc]. apply andb_prop in H. destruct H as [Hd Ht].
+  apply negb_true_iff in Hk, Ht, Hc. tauto.
+Qed.
+
+Lemma pgx_insertable_dict : forall s v dd, pg_rv s v = PvDict dd -> pgx_plain dd ->
+  pg_is_dict_of_type s v pgk_Pages = false -> pg_has_key s v pgk_Kids = false -> pg_is_dict_of_type s v pgk_Catalog = false -> pgx_leafy dd.
+Proof.
+  intros s v dd Hv [Pk Pt] Ht Hk Hc. unfold pg_is_dict_of_type, pg_has_key, pg_is_dict, pg_name_is, pg_hget in *. rewrite Hv in *. cbn [andb] in *.
+  split.
+  - destruct (pg_dget dd pgk_Kids) eqn:E; cbn in Hk; try discriminate; [reflexivity|]. exfalso. eapply Pk. reflexivity.
+  - destruct (pg_dget dd pgk_Type) eqn:E; cbn [pg_rv] in Ht, Hc; auto.
+    + split; intros ->; [rewrite pg_key_eqb_refl in Ht|rewrite pg_key_eqb_refl in Hc]; discriminate.
+    + eapply Pt. reflexivity.
+Qed.
+
+(* an admissible operand that passes the test at the top of Pages::insert is a leaf dictionary *)
+Lemma pgx_insertable_leafy : forall w d h, pgx_operand_ok w d h -> pg_insertable w d h = true ->
+  match pg_norm w h with
+  | PhDirect v => exists dd, v = PvDict dd /\ pgx_leafy dd
+  | PhObj b i => exists dd, pg_lookup (pd_store (pg_get w d)) i = Some (PcObj (PvDict dd)) /\ pgx_leafy dd
+  end.
+Proof.
+  intros w d h Hop Hins. unfold pgx_operand_ok, pg_insertable in *. destruct (pg_norm w h) as [v|b i] eqn:En.
+  - destruct v; try contradiction; try (cbn in Hins; discriminate).
+    destruct (pgx_ins_formula (pd_store (pg_get w d)) (PvDict l) eq_refl Hins) as (_ & Ht & Hk & Hcat).
+    exists l. split; [reflexivity|]. apply (pgx_insertable_dict (pd_store (pg_get w d)) (PvDict l) l eq_refl (proj1 Hop) Ht Hk Hcat).
+  - pose proof (pgx_norm_obj _ _ _ _ En) as Hex. destruct Hop as (-> & _ & _ & Hc).
+    destruct (pg_lookup (pd_store (pg_get w d)) i) as [[v|dd xx kk]|] eqn:El; [| |congruence].
+    + assert (Hn : pg_is_null (pd_store (pg_get w d)) (PvRef i) = false).
+      { unfold pg_is_null. rewrite El. destruct v; try reflexivity. contradiction. }
+      destruct (pgx_ins_formula _ _ Hn Hins) as (Hd & Ht & Hk & Hcat).
+      assert (Hrv : pg_rv (pd_store (pg_get w d)) (PvRef i) = v) by (cbn [pg_rv]; rewrite El; reflexivity).
+      unfold pg_is_dict in Hd. rewrite Hrv in Hd. destruct v; try discriminate.
+      exists l. split; [reflexivity|]. eapply pgx_insertable_dict; [exact Hrv|exact (proj1 Hc)|exact Ht|exact Hk|exact Hcat].
+    + exfalso. assert (Hn : pg_is_null (pd_store (pg_get w d)) (PvRef i) = false) by (unfold pg_is_null; rewrite El; reflexivity).
+      destruct (pgx_ins_formula _ _ Hn Hins) as (Hd & _). unfold pg_is_dict in Hd. cbn [pg_rv] in Hd. rewrite El in Hd. discriminate.
+Qed.
+
+Lemma pgx_norm_put : forall w d h p1, pgx_operand_ok w d h ->
+  (forall j, pg_lookup (pd_store (pg_get w d)) j <> None -> pg_lookup (pd_store p1) j <> None) ->
+  pg_norm (pg_put w d p1) h = pg_norm w h.
+Proof.
+  intros w d h p1 Hop Hex. unfold pgx_operand_ok in Hop. destruct h as [v|b i]; [reflexivity|]. unfold pg_norm in *.
+  destruct (pg_lookup (pd_store (pg_get w b)) i) eqn:E; [|contradiction].
+  destruct Hop as (-> & _). rewrite pg_get_put_same.
+  destruct (pg_lookup (pd_store p1) i) eqn:E1; [reflexivity|]. exfalso. apply (Hex i); [rewrite E; discriminate|exact E1].
+Qed.
+
+Lemma pgx_marks_flat_all : forall p K, pgx_flat p K -> pd_all p = K -> pgx_marks p = pg_marks p.
+Proof. intros p K Hf Ha. unfold pgx_marks, pg_marks. rewrite (pgx_K_flat _ _ Hf), Ha. reflexivity. Qed.
+
+Lemma pgx_st_of_inv : forall p, pg_inv p -> pgx_flat p (pd_all p) -> pgx_st p (pd_all p).
+Proof.
+  intros p Hi Hf. split; [exact Hf|]. right. split; [reflexivity|].
+  destruct Hi as (pn & d & _ & _ & _ & _ & _ & _ & _ & _ & _ & Hpos & Hnd & _). split; assumption.
+Qed.
+
+Lemma pgx_insert_ok : forall w d h pos K,
+  pgx_st (pg_get w d) K -> pgx_operand_ok w d h -> pg_insertable w d h = true -> (0 <= pos <= pg_len K)%Z ->
+  exists p' K', pg_insert w d h pos = (pg_put w d p', None) /\ pgx_st p' K' /\
+     pgx_marks p' = pgsp_insert (pgx_marks (pg_get w d)) (Z.to_nat pos) (pg_operand_mark w h).
+Proof.
+  intros w d h pos K Hst Hop Hins Hpos.
+  pose proof (pgx_insertable_leafy w d h Hop Hins) as Hleafy.
+  destruct (pgx_flatten_st _ K Hst) as (p1 & Hfl & Hf1 & Hall1 & Hpi1 & Hsim & Hr1 & Ho1 & Hg1 & Hinv1).
+  destruct Hst as [Hf0 _].
+  unfold pg_insert. rewrite Hins. cbn [negb]. rewrite Hfl.
+  rewrite (pgx_norm_put w d h p1 Hop) by (intros j; apply pgx_sim_some; exact Hsim).
+  unfold pgx_operand_ok, pg_operand_mark in *.
+  pose proof Hf1 as (pn & dn & Hroot1 & Hpn1 & Hkids1 & Hcount1 & Hpar1 & Hpnroot1 & Hpnk1 & Hrootk1 & Hnd1 & Hleaf1 & Hinvf1).
+  assert (Hpnex1 : pg_lookup (pd_store p1) pn <> None) by (rewrite Hpn1; discriminate).
+  assert (Hm1 : pg_marks p1 = pgx_marks (pg_get w d)).
+  { rewrite <- (pgx_marks_flat_all p1 K Hf1 Hall1). eapply pgx_marks_sim; eassumption. }
+  destruct (pg_norm w h) as [v|b i] eqn:En.
+  - (* direct object: makeIndirectObject *)
+    destruct Hleafy as (dd & -> & Hld).
+    rewrite pg_get_put_same.
+    set (ni := pg_next_id (pd_store p1)).
+    set (p0 := pd_with_store p1 (fst (pg_alloc (pd_store p1) (PcObj (PvDict dd))))).
+    change (let '(s, i) := pg_alloc (pd_store p1) (PcObj (PvDict dd)) in (pg_put (pg_put w d p1) d (pd_with_store p1 s), @None pg_err, PvRef i))
+      with (pg_put (pg_put w d p1) d p0, @None pg_err, PvRef ni).
+    cbv iota beta. rewrite pg_get_put_same, pg_put_put.
+    assert (Hi0 : pg_inv p0) by (apply pg_inv_alloc, Hinv1).
+    assert (Hf0' : pgx_flat p0 K) by (apply pgx_flat_sim; [exact Hf1|apply pgx_sim_alloc]).
+    assert (Hlni : pg_lookup (pd_store p0) ni = Some (PcObj (PvDict dd))).
+    { unfold p0. cbn [pd_store pd_with_store]. rewrite pg_lookup_alloc. fold ni. rewrite N.eqb_refl. reflexivity. }
+    assert (Hnifresh : pg_lookup (pd_store p1) ni = None) by apply pg_next_id_fresh.
+    assert (Hroot0 : pg_root_pages p0 = PvRef pn) by (eapply pgx_root_pages_sim; [apply pgx_sim_alloc|exact Hroot1]).
+    assert (Hnipn : ni <> pn) by (intros E; rewrite E in Hnifresh; congruence).
+    assert (Hall0 : pd_all p0 = K) by exact Hall1.
+    destruct (pg_insert_local_ok p0 ni pos Hi0) as (p2 & ni' & Hrun & Hi2 & Hall2 & Hnin & _ & Hni' & Hr2 & _ & _ & Hmk).
+    + rewrite Hlni. discriminate.
+    + change (pd_root p0) with (pd_root p1). intros E. pose proof (pg_root_exists p1 pn Hroot1) as HH. rewrite <- E in HH. congruence.
+    + rewrite Hroot0. intros E. inversion E. congruence.
+    + intros dd0 x k E. rewrite Hlni in E. discriminate.
+    + rewrite Hall0. exact Hpos.
+    + assert (Hninot : ~ In ni (pd_all p0)).
+      { rewrite Hall0. intros Hin. apply (pgx_flat_exists p1 K ni Hf1) in Hin. congruence. }
+      rewrite (Hni' Hninot) in *. clear Hni'.
+      destruct (pgx_insert_local_edit p0 ni pos pn Hroot0) as [Hed _].
+      { unfold p0. cbn [pd_store pd_with_store]. rewrite pg_lookup_alloc. destruct (pn =? pg_next_id (pd_store p1)); [discriminate|exact Hpnex1]. }
+      { exact Hnipn. } { rewrite Hall0. exact Hpos. }
+      rewrite Hrun in Hed. cbn [fst] in Hed.
+      assert (Hf2 : pgx_flat p2 (pd_all p2)).
+      { eapply (pgx_flat_of_inv_edit p0 p2 K pn Hf0' Hroot0 Hi2 Hr2 Hed).
+        intros k Hk. rewrite Hall2, Hall0 in Hk. apply pg_In_ins in Hk; [|unfold pg_len in Hpos; lia].
+        destruct Hk as [->|Hk].
+        - eapply pgx_leafy_edit; [exact Hed|exact Hnipn|exact Hlni|exact Hld].
+        - destruct Hf0' as (pn' & dn' & Hroot' & _ & _ & _ & _ & _ & Hpnk' & _ & _ & Hleaf' & _).
+          rewrite Hroot0 in Hroot'. inversion Hroot'. subst pn'.
+          destruct (Hleaf' k Hk) as (dk & Ek & Lk). eapply pgx_leafy_edit; [exact Hed| |exact Ek|exact Lk]. intros ->. contradiction. }
+      exists p2, (pd_all p2). rewrite Hrun. split; [rewrite ?pg_put_put; reflexivity|]. split; [apply pgx_st_of_inv; assumption|].
+      rewrite (pgx_marks_flat_all p2 _ Hf2 eq_refl), Hmk.
+      assert (pg_marks p0 = pg_marks p1) as -> by (unfold p0; apply pg_marks_alloc, Hinv1).
+      rewrite Hm1. f_equal. apply pg_mark_obj, Hlni.
+  - (* an object of this document *)
+    destruct Hop as (-> & Hiroot & Hipn & _). destruct Hleafy as (dd & Edd & Hld).
+    rewrite Bool.eqb_reflx. cbv iota beta. rewrite pg_get_put_same.
+    destruct (pgx_sim_dict _ _ _ _ Hsim Edd) as (dd1 & Edd1 & Sdd1).
+    pose proof (pgx_leafy_sim _ _ Hld Sdd1) as Hld1.
+    assert (Hipn1 : i <> pn).
+    { intros ->. apply Hipn. destruct Hf0 as (pn0 & d0 & Hroot0 & _). rewrite Hroot0. f_equal.
+      pose proof (pgx_root_pages_sim _ _ Hsim pn0 Hroot0) as HH. unfold pg_root_pages in *. cbn [pd_store pd_root pd_with_store] in HH.
+      rewrite <- Hr1, Hroot1 in HH. inversion HH. reflexivity. }
+    destruct (pg_insert_local_ok p1 i pos Hinv1) as (p2 & ni & Hrun & Hi2 & Hall2 & Hnin & Hnidup & Hninew & Hr2 & _ & _ & Hmk).
+    + rewrite Edd1. discriminate.
+    + rewrite Hr1. exact Hiroot.
+    + rewrite Hroot1. intros E. inversion E. congruence.
+    + intros d0 x k E. rewrite Edd1 in E. discriminate.
+    + rewrite Hall1. exact Hpos.
+    + destruct (pgx_insert_local_edit p1 i pos pn Hroot1 Hpnex1 Hipn1) as [Hed Hcopy]; [rewrite Hall1; exact Hpos|].
+      rewrite Hrun in Hed, Hcopy. cbn [fst] in Hed, Hcopy.
+      assert (Hf2 : pgx_flat p2 (pd_all p2)).
+      { eapply (pgx_flat_of_inv_edit p1 p2 K pn Hf1 Hroot1 Hi2 Hr2 Hed).
+        intros k Hk. rewrite Hall2, Hall1 in Hk. apply pg_In_ins in Hk; [|unfold pg_len in Hpos; lia].
+        destruct Hk as [->|Hk].
+        - destruct (in_dec N.eq_dec i K) as [Hin|Hnot].
+          + rewrite Hall1 in Hnidup. rewrite (Hnidup Hin).
+            destruct (Hcopy dd1 Edd1) as (d' & Ed' & Hk').
+            { destruct Hpi1 as [Hpf _]. rewrite Hpf. destruct (pg_index K i) eqn:Ei; [discriminate|]. apply pg_index_none in Ei. contradiction. }
+            exists d'. split; [exact Ed'|]. destruct Hld1 as [L1 L2]. split; rewrite Hk' by discriminate; assumption.
+          + rewrite Hall1 in Hninew. rewrite (Hninew Hnot). eapply pgx_leafy_edit; [exact Hed|exact Hipn1|exact Edd1|exact Hld1].
+        - destruct (Hleaf1 k Hk) as (dk & Ek & Lk). eapply pgx_leafy_edit; [exact Hed| |exact Ek|exact Lk]. intros ->. contradiction. }
+      exists p2, (pd_all p2). rewrite Hrun. split; [rewrite ?pg_put_put; reflexivity|]. split; [apply pgx_st_of_inv; assumption|].
+      rewrite (pgx_marks_flat_all p2 _ Hf2 eq_refl), Hmk, Hm1. f_equal.
+      unfold pg_mark. rewrite (pgx_sim_mark _ _ i Hsim); [reflexivity|rewrite Edd; discriminate].
+Qed.
+
+(* ---------------------------------------------------------------- the operand tests do not depend on repairs *)
+Definition pgx_insF (s : pg_store) (v : pg_val) : bool :=
+  pg_is_null s v ||
+  (pg_is_dict s v && negb (pg_is_dict_of_type s v pgk_Pages) && negb (pg_is_dict_of_type s v pgk_Catalog) && negb (pg_has_key s v pgk_Kids)).
+
+Lemma pgx_insF_leafy : forall s v dd, pg_rv s v = PvDict dd -> pgx_leafy dd -> pgx_insF s v = true.
+Proof.
+  intros s v dd Hv [Lk Lt].
+  assert (Hd : pg_is_dict s v = true) by (unfold pg_is_dict; rewrite Hv; reflexivity).
+  assert (Hn : pg_name_is s (pg_dget dd pgk_Type) pgk_Pages = false /\ pg_name_is s (pg_dget dd pgk_Type) pgk_Catalog = false).
+  { unfold pg_name_is. destruct (pg_dget dd pgk_Type); cbn [pg_rv]; try (split; reflexivity); [|contradiction].
+    destruct Lt. split; apply pg_key_eqb_neq; assumption. }
+  destruct Hn as [H1 H2].
+  assert (Hp : pg_is_dict_of_type s v pgk_Pages = false) by (unfold pg_is_dict_of_type, pg_hget; rewrite Hd, Hv, H1; reflexivity).
+  assert (Hc : pg_is_dict_of_type s v pgk_Catalog = false) by (unfold pg_is_dict_of_type, pg_hget; rewrite Hd, Hv, H2; reflexivity).
+  assert (Hk : pg_has_key s v pgk_Kids = false) by (unfold pg_has_key, pg_hget; rewrite Hv, Lk; reflexivity).
+  unfold pgx_insF. rewrite Hd, Hp, Hc, Hk. cbn. apply orb_true_r.
+Qed.
+
+Lemma pgx_insF_kids : forall s v dd, pg_rv s v = PvDict dd -> pgx_plain dd -> pg_dget dd pgk_Kids <> PvNull -> pgx_insF s v = false.
+Proof.
+  intros s v dd Hv [Pk _] Hk. unfold pgx_insF, pg_is_dict, pg_has_key, pg_hget. rewrite Hv.
+  assert (pg_is_null s (pg_dget dd pgk_Kids) = false) as ->.
+  { destruct (pg_dget dd pgk_Kids) eqn:E; try reflexivity; [congruence|exfalso; eapply Pk; reflexivity]. }
+  cbn [negb]. rewrite andb_false_r, orb_false_r.
+  unfold pg_is_null. destruct v; try reflexivity; try discriminate. cbn [pg_rv] in Hv. destruct (pg_lookup s i) as [[w|]|]; try discriminate. subst w. reflexivity.
+Qed.
+
+Lemma pgx_plain_sim : forall d d', pgx_plain d -> pgx_dsim d d' -> (pg_dget d pgk_Kids <> PvNull \/ pgx_leafy d) ->
+  pgx_plain d' /\ (pg_dget d' pgk_Kids <> PvNull \/ pgx_leafy d').
+Proof.
+  intros d d' [Pk Pt] (Hh & Hty & Hp) Hc. split; [split|].
+  - rewrite (Hh pgk_Kids pgx_kids_hard). exact Pk.
+  - intros j E. destruct Hty as [E'|[E'|[E' _]]]; rewrite E' in E; [eapply Pt; exact E|discriminate|discriminate].
+  - destruct Hc as [Hc|Hc]; [left; rewrite (Hh pgk_Kids pgx_kids_hard); exact Hc|right; eapply pgx_leafy_sim; [exact Hc|repeat split; assumption]].
+Qed.
+
+Lemma pgx_operand_sim : forall w d h p1, pgx_operand_ok w d h ->
+  pgx_sim (pd_store (pg_get w d)) (pd_store p1) -> pd_root p1 = pd_root (pg_get w d) ->
+  (forall pn, pg_root_pages (pg_get w d) = PvRef pn -> pg_root_pages p1 = PvRef pn) ->
+  (exists pn, pg_root_pages (pg_get w d) = PvRef pn) ->
+  pgx_operand_ok (pg_put w d p1) d h /\ pg_insertable (pg_put w d p1) d h = pg_insertable w d h /\
+  pg_operand_mark (pg_put w d p1) h = pg_operand_mark w h.
+Proof.
+  intros w d h p1 Hop Hsim Hr Hrp [pn0 Hpn0].
+  assert (Hnorm : pg_norm (pg_put w d p1) h = pg_norm w h) by (apply pgx_norm_put; [exact Hop|intros j; apply pgx_sim_some; exact Hsim]).
+  unfold pgx_operand_ok, pg_insertable, pg_operand_mark in *. rewrite Hnorm. rewrite pg_get_put_same.
+  destruct (pg_norm w h) as [v|b i] eqn:En.
+  - split; [exact Hop|]. split; [|reflexivity].
+    fold (pgx_insF (pd_store p1) v). fold (pgx_insF (pd_store (pg_get w d)) v).
+    destruct v; try contradiction; try reflexivity.
+    destruct Hop as [Hpl [Hk|Hl]].
+    + rewrite !(pgx_insF_kids _ (PvDict l) l eq_refl Hpl Hk). reflexivity.
+    + rewrite !(pgx_insF_leafy _ (PvDict l) l eq_refl Hl). reflexivity.
+  - destruct Hop as (-> & Hiroot & Hipn & Hc). rewrite pg_get_put_same.
+    fold (pgx_insF (pd_store p1) (PvRef i)). fold (pgx_insF (pd_store (pg_get w d)) (PvRef i)).
+    pose proof (Hsim i) as Hi. unfold pg_mark, pg_marker.
+    destruct (pg_lookup (pd_store (pg_get w d)) i) as [[v|dd xx kk]|] eqn:El.
+    + destruct v; try contradiction;
+        try (rewrite Hi; split; [split; [reflexivity|split; [congruence|split; [rewrite (Hrp pn0 Hpn0), <- Hpn0; exact Hipn|exact I]]]|];
+             split; [unfold pgx_insF, pg_is_null, pg_is_dict, pg_is_dict_of_type, pg_has_key, pg_hget; cbn [pg_rv]; rewrite Hi, El; reflexivity|];
+             unfold pg_hget; cbn [pg_rv]; rewrite Hi, El; reflexivity).
+      destruct Hi as (d' & E' & Sd). destruct Hc as [Hpl Hc]. destruct (pgx_plain_sim _ _ Hpl Sd Hc) as [Hpl' Hc'].
+      rewrite E'. split; [split; [reflexivity|split; [congruence|split; [rewrite (Hrp pn0 Hpn0), <- Hpn0; exact Hipn|split; assumption]]]|].
+      split.
+      * destruct Hc as [Hk|Hl].
+        -- destruct Hc' as [Hk'|Hl']; [|destruct Hl' as [Hl' _]; destruct Sd as (Hh & _); rewrite (Hh pgk_Kids pgx_kids_hard) in Hl'; contradiction].
+           rewrite (pgx_insF_kids (pd_store p1) (PvRef i) d'), (pgx_insF_kids (pd_store (pg_get w d)) (PvRef i) l); try assumption; try reflexivity;
+             cbn [pg_rv]; [rewrite El|rewrite E']; reflexivity.
+        -- pose proof (pgx_leafy_sim _ _ Hl Sd) as Hl'.
+           rewrite (pgx_insF_leafy (pd_store p1) (PvRef i) d'), (pgx_insF_leafy (pd_store (pg_get w d)) (PvRef i) l); try assumption; try reflexivity;
+             cbn [pg_rv]; [rewrite El|rewrite E']; reflexivity.
+      * unfold pg_hget. cbn [pg_rv]. rewrite E', El. destruct Sd as (Hh & _). rewrite (Hh pgk_Mk pgx_mk_hard). reflexivity.
+    + rewrite Hi. split; [split; [reflexivity|split; [congruence|split; [rewrite (Hrp pn0 Hpn0), <- Hpn0; exact Hipn|exact I]]]|].
+      split; [unfold pgx_insF, pg_is_null, pg_is_dict, pg_is_dict_of_type, pg_has_key, pg_hget; cbn [pg_rv]; rewrite Hi, El; reflexivity|].
+      unfold pg_hget; cbn [pg_rv]; rewrite Hi, El; reflexivity.
+    + exfalso. apply (pgx_norm_obj _ _ _ _ En). exact El.
+Qed.
